@@ -352,6 +352,7 @@ Definition guard (s : state) (t : nat) : bool :=
             | _ => true
             end
   | K181 => negb (created_race s t)
+  | X1072 => o_init (s_heap s (self_of th))     (* expire() of an instance still under construction elsewhere *)
   | _ => true
   end.
 
